@@ -14,6 +14,50 @@ let print_event = function
   | EInit (a, b) -> Printf.printf "I %s %s\n" (dec_of_n a) (dec_of_n b)
   | EInitFail -> print_endline "IFAIL"
   | EFuel -> print_endline "FUEL"
+(* kind imp: serialized element trees (gen/xmlfuzz_gen.py serialize_doc) -> verdict of the import model *)
+let unhex s = if s = "-" then [] else Stdlib.List.init (Stdlib.String.length s / 2) (fun i -> nbyte.(int_of_string ("0x" ^ Stdlib.String.sub s (2 * i) 2)))
+let rec canon t = match t with T (ty, _, kids) ->
+  string_of_int (int_of_n ty) ^ "(" ^ Stdlib.String.concat "," (Stdlib.List.sort compare (Stdlib.List.map canon kids)) ^ ")"
+let run_imp txt =
+  let lines = Stdlib.Array.of_list (Stdlib.String.split_on_char '\n' txt) in
+  let n = Stdlib.Array.length lines in
+  let pos = ref 0 in
+  (* parse elements until X / ENDDOC *)
+  let rec elems () =
+    if !pos >= n then [] else
+    let l = lines.(!pos) in
+    if Stdlib.String.length l > 1 && l.[0] = 'E' && l.[1] = ' ' then begin
+      incr pos;
+      (match Stdlib.String.split_on_char ' ' l with
+       | [_; tag; closed; content] ->
+         let attrs = ref [] in
+         while !pos < n && Stdlib.String.length lines.(!pos) > 1 && lines.(!pos).[0] = 'A' do
+           (match Stdlib.String.split_on_char ' ' lines.(!pos) with
+            | [_; a; v] -> attrs := (unhex a, unhex v) :: !attrs
+            | _ -> ());
+           incr pos
+         done;
+         let kids = elems () in
+         (* now at X *)
+         incr pos;
+         let e = Elem (unhex tag, Stdlib.List.rev !attrs, unhex content, closed = "1", kids) in
+         e :: elems ()
+       | _ -> [])
+    end else []
+  in
+  while !pos < n do
+    let l = lines.(!pos) in
+    (match Stdlib.String.split_on_char ' ' l with
+     | ["DOC"; id; major; minor] ->
+       incr pos;
+       let top = elems () in
+       (match import_doc { d_major = n_of_int (int_of_string major); d_minor = n_of_int (int_of_string minor); d_top = top } with
+        | Accept t -> Printf.printf "IMP %s accept %s\n" id (canon t)
+        | Reject -> Printf.printf "IMP %s reject\n" id
+        | Unmodelled -> Printf.printf "IMP %s unmodelled\n" id)
+     | _ -> incr pos)
+  done
+
 let () =
   try while true do
     let l = input_line stdin in
@@ -24,6 +68,7 @@ let () =
       (match (try Some (read_file path) with _ -> None) with
        | None -> print_endline "NOFILE"
        | Some txt ->
+         if kind = "imp" then run_imp txt else
          if kind = "b64" then begin
            (* lines "<targsize> <text>": hwloc_decode_from_base64(text, block of targsize bytes, targsize) *)
            Stdlib.List.iter (fun l ->
